@@ -1,5 +1,5 @@
 """C06 — blocking-query contract: a change is never missed."""
-import json, os, collections
+import json, os, collections, time
 import vlib
 
 PROP = "C06"
@@ -193,8 +193,38 @@ def signature(q, v, op):
     return {"class": cls, "query": qk, "lost": v["kind"], "situation": sit}
 
 
+def still_fails(ctx, binp, stream, ops, q, kind):
+    """re-run the implementation on the candidate history: does the LAST write still break the contract for q?"""
+    rp = os.path.join(ctx.workdir, "shrink.json")
+    out = os.path.join(ctx.workdir, "shrink.out")
+    json.dump({"stream": stream, "ops": ops}, open(rp, "w"))
+    rc, _ = vlib.sh([binp, "-replay", rp, "-out", out], timeout=120)
+    if rc != 0:
+        return False
+    lines = open(out).read().splitlines()
+    hdr, h = json.loads(lines[0]), json.loads(lines[1])
+    qs = hdr["ext_queries"] if stream == "ext" else hdr["queries"]
+    return any(v["step"] == len(ops) - 1 and v["kind"] == kind and qs[v["q"]] == q for v in h["viol"] or [])
+
+
+def shrink(ctx, binp, stream, ops, q, kind):
+    """greedy delta-debugging over the write list (the failing write stays last)"""
+    if not still_fails(ctx, binp, stream, ops, q, kind):
+        return ops
+    changed = True
+    while changed:
+        changed = False
+        for i in range(len(ops) - 2, -1, -1):
+            cand = ops[:i] + ops[i + 1:]
+            if still_fails(ctx, binp, stream, cand, q, kind):
+                ops, changed = cand, True
+    return ops
+
+
 def run(ctx):
+    t0 = time.time()
     info, ok = vlib.proof_stage(ctx, PROP_FILE, ["Run/C06.v"])
+    t_proof = time.time() - t0
     cov = dict(info)
     cov["trusted_base"] = vlib.STD_TRUSTED + [
         "modelled, not verified: go-memdb / iradix watch granularity is abstracted to 'a watch on an index value or prefix fires when a row under it differs' (checked one-directionally on every run: model fires => real watch fired)",
@@ -207,9 +237,13 @@ def run(ctx):
         cov.update({"evaluations": 0, "distinct_nontrivial": 0, "rule": "proof stage failed", "samples": []})
         return ctx.finish(cov, assumptions)
 
+    t0 = time.time()
     binp = vlib.go_build("blocking")
+    t_build = time.time() - t0
+    t0 = time.time()
     out = os.path.join(ctx.workdir, "hist.jsonl")
     rc, o = vlib.sh([binp, "-seed", str(ctx.seed), "-tier", ctx.tier, "-out", out], timeout=3000)
+    t_harness = time.time() - t0
     if rc != 0:
         raise vlib.BuildError("harness run failed: " + o[-2000:])
     hs, loops = [], []
@@ -222,9 +256,15 @@ def run(ctx):
         else:
             hs.append(o)
     model_hs = [h for h in hs if h["stream"] == "model"]
+    # a scripted action that raced with the loop's own timeout (recorded, but the loop had already
+    # given up) makes the script inconclusive: such cases are counted, not compared
+    racy = [lc for lc in loops if lc["timed_out"] and len(lc.get("wakes") or []) >= len(lc["calls"] or [])
+            and (lc.get("wakes") or [None])[-1] != "none"]
+    loops = [lc for lc in loops if lc not in racy]
 
     # ---- model vs implementation, inside Coq
-    per = 13 if ctx.tier == "quick" else 40
+    t0 = time.time()
+    per = 19 if ctx.tier == "quick" else 50
     shards = [model_hs[i:i + per] for i in range(0, len(model_hs), per)]
     mism, texts = [], []
     try:
@@ -233,6 +273,7 @@ def run(ctx):
         ctx.violation({"kind": "correspondence", "theorem": "Run.C06.check", "what": "observation outside the model's vocabulary: %s" % e}, found_input=False)
         shards = []
     results = vlib.coq_run_shards(PROP, texts, timeout=1500, jobs=10 if ctx.tier == "quick" else 6) if texts else []
+    t_coq = time.time() - t0
     loop_mism = []
     for k, (okk, idx, raw) in enumerate(results):
         if not okk:
@@ -277,9 +318,12 @@ def run(ctx):
             continue
         reported.add(key)
         qs = qs_ext if h["stream"] == "ext" else qs_model
+        ops = h["ops"][:v["step"] + 1]
+        if ops:
+            ops = shrink(ctx, binp, h["stream"], ops, qs[v["q"]], v["kind"])
         ctx.violation({"kind": "oracle", "signature": sig, "violation": v, "query": qs[v["q"]] if h["ops"] else None,
-                       "stream": h["stream"], "ops": h["ops"][:v["step"] + 1], "loop": h.get("loop"),
-                       "replay_cmd": "build/bin/blocking -replay <this file>"})
+                       "stream": h["stream"], "ops": ops, "shrunk_from": v["step"] + 1, "loop": h.get("loop"),
+                       "replay_cmd": "%s -replay <this file>" % os.path.relpath(binp, vlib.VERIF)})
     if (mism or loop_mism) and not unknown:
         if mism:
             h = mism[0]
@@ -294,7 +338,7 @@ def run(ctx):
         "evaluations": tot["evals"],
         "distinct_nontrivial": tot["changed"],
         "rule": "evaluations = (query, state) pairs evaluated on the real store; distinct_nontrivial = (query, write) pairs where the result of the query changed across the write (the antecedent of the contract); every such pair gets the direct oracle; model-stream pairs are compared exactly with the Coq model",
-        "histories": {"model": len(model_hs), "ext": len(hs) - len(model_hs), "distinct": len(seen), "loop_cases": len(loops)},
+        "histories": {"model": len(model_hs), "ext": len(hs) - len(model_hs), "distinct": len(seen), "loop_cases": len(loops), "loop_cases_inconclusive_timing": len(racy)},
         "queries_per_state": {"model": nq, "ext": len(qs_ext)},
         "traces_validated_against_impl": len(model_hs) - len(mism),
         "model_mismatches": len(mism), "loop_mismatches": len(loop_mism),
@@ -305,5 +349,7 @@ def run(ctx):
         "history_length_histogram": {str(k): v for k, v in sorted(lens.items())},
         "samples": [{"stream": h["stream"], "ops": h["ops"][:3], "first_changes": (h["steps"][0]["chg"] or [])[:2]} for h in hs[:2]],
         "exhaustive": False,
+        "stage_wall_s": {"proof_stage": round(t_proof, 1), "go_build": round(t_build, 1), "harness": round(t_harness, 1),
+                         "coq_case_shards": round(t_coq, 1), "shards": len(texts)},
     })
     return ctx.finish(cov, assumptions)
